@@ -3,7 +3,7 @@ use crate::{
     error::{WriterError, WriterResult},
     model::{
         TryFromNode,
-        field::{as_field_name, resolve_type},
+        field::{as_field_name, rename_keywords, resolve_type},
     },
     reader::WriteXml,
 };
@@ -102,7 +102,7 @@ fn service_type_name(name: &str) -> String {
     if ident.chars().next().map_or(true, |c| c.is_ascii_digit()) {
         format!("_{ident}")
     } else {
-        ident
+        rename_keywords(&ident).to_string()
     }
 }
 
